@@ -18,7 +18,7 @@ from torchjd.autojac._transform import (
     Transform,
 )
 from vlib import jdcheck, programs as P
-from vlib.probes import PositionCoding, Recording
+from vlib.probes import PositionCoding, Recording, _same
 from vlib.runner import RAISED, Outcome, Part
 
 ID = "C15"
@@ -78,6 +78,10 @@ def _case(draw, kinds=tuple(KINDS)):
     dtype = draw(st.sampled_from(["float64", "float32"]))
     real = bool(rng.integers(0, 2))
     case = {"kind": kind, "dtype": dtype, "seed": int(rng.integers(0, 2**31)), "real": real}
+    if kind in ("diag", "stack", "select") and rng.integers(0, 4) == 0:
+        # the data-moving transforms place values, they do not compute with them: inf / nan / -0.0 / huge entries (an
+        # overflowed gradient) must stay at their own position and must not leak into the zeros around them
+        case["special"] = True
     if kind in ("grad", "jac"):
         prog = draw(P.programs(max_leaves=4, max_nodes=8, max_outputs=3, max_rank=4, dtypes=(dtype,),
                                min_leaves=draw(st.sampled_from([1, 2, 3]))))
@@ -148,9 +152,15 @@ class _Const(Transform):
         return set(self.d.keys())
 
 
-def _vals(rng, shape, real, tdt):
+SPECIALS = (float("inf"), float("-inf"), float("nan"), -0.0, 3e38, -1e-45)
+
+
+def _vals(rng, shape, real, tdt, special=False):
     k = P.numel(shape)
     v = rng.standard_normal(k) if real else rng.integers(-4, 5, size=k).astype(float)
+    if special and k:
+        for i in rng.choice(k, size=int(rng.integers(1, k + 1)), replace=False):
+            v[i] = SPECIALS[int(rng.integers(0, len(SPECIALS)))]
     return torch.tensor(v, dtype=tdt).reshape(shape)
 
 
@@ -260,9 +270,14 @@ def _diff_case(case, out):
     # linearity in the cotangents
     a, b = 2.0, -0.5
     cots2 = [torch.stack([_vals(rng, list(o.shape), case["real"], tdt) for _ in range(B)]) for o in outs]
-    J2 = Jac(outs, ins, k, retain_graph=True)(Jacobians({o: c for o, c in zip(outs, cots2)}))
-    J3 = Jac(outs, ins, k, retain_graph=True)(Jacobians({o: a * c + b * c2 for o, c, c2 in zip(outs, cots, cots2)}))
+    J2 = out.call("raises:Jac", Jac(outs, ins, k, retain_graph=True), Jacobians({o: c for o, c in zip(outs, cots2)}))
+    J3 = out.call("raises:Jac", Jac(outs, ins, k, retain_graph=True), Jacobians({o: a * c + b * c2 for o, c, c2 in zip(outs, cots, cots2)}))
+    if J2 is RAISED or J3 is RAISED:
+        return
     for x in ins:
+        if not out.check(tuple(J2[x].shape) == (B,) + tuple(x.shape) and tuple(J3[x].shape) == (B,) + tuple(x.shape), "jac-shape",
+                         f"{tuple(J2[x].shape)}, {tuple(J3[x].shape)} vs {(B,) + tuple(x.shape)}"):
+            return
         err = float((J3[x].double() - a * J[x].double() - b * J2[x].double()).abs().max()) if x.numel() else 0.0
         out.within(err, tol * cmax * 8, "jac-not-linear-in-cotangents", f"input of shape {tuple(x.shape)}")
     out.nontrivial = unreachable or bool(cuts) or (k is not None and k < B) or _nt_shapes([list(x.shape) for x in ins])
@@ -315,6 +330,9 @@ def _dict_case(case, out):
             rev = list(range(kk.ndim))[::-1]
             keys[i] = kk.permute(rev).contiguous().permute(rev)  # a non-contiguous (column-major) key
     nt = _nt_shapes(shapes)
+    sp = bool(case.get("special"))
+    if sp:
+        out.cls("special-values(inf/nan/-0.0)")
     if kind == "init":
         res = Init(keys)(EmptyTensorDict())
         ok = set(res.keys()) == set(keys) and type(res) is Gradients
@@ -325,7 +343,7 @@ def _dict_case(case, out):
         out.nontrivial = nt
         return
     if kind == "diag":
-        vals = _shuffled(rng, {kk: _vals(rng, s, case["real"], tdt) for kk, s in zip(keys, shapes)})
+        vals = _shuffled(rng, {kk: _vals(rng, s, case["real"], tdt, sp) for kk, s in zip(keys, shapes)})
         res = Diagonalize(keys)(Gradients(vals))
         n_tot = sum(P.numel(s) for s in shapes)
         out.check(set(res.keys()) == set(keys) and type(res) is Jacobians, "diag-keys-type", f"{type(res).__name__}")
@@ -336,7 +354,7 @@ def _dict_case(case, out):
             want[off : off + k_, :] = np.diag(vals[kk].double().reshape(-1).numpy())
             got = res[kk]
             if out.check(tuple(got.shape) == (n_tot,) + tuple(s), "diag-shape", f"{tuple(got.shape)}"):
-                out.check(np.array_equal(got.double().reshape(n_tot, -1).numpy(), want), "diag-layout",
+                out.check(np.array_equal(got.double().reshape(n_tot, -1).numpy(), want, equal_nan=True), "diag-layout",
                           f"key #{ki} of shape {s}: {got.tolist()} vs {want.tolist()}")
             off += k_
         out.nontrivial = nt
@@ -345,7 +363,7 @@ def _dict_case(case, out):
         present = case["present"]
         dicts = []
         for row in present:
-            dicts.append(_shuffled(rng, {kk: _vals(rng, s, case["real"], tdt) for kk, s, p in zip(keys, shapes, row) if p}))
+            dicts.append(_shuffled(rng, {kk: _vals(rng, s, case["real"], tdt, sp) for kk, s, p in zip(keys, shapes, row) if p}))
         res = Stack([_Const(d) for d in dicts])(EmptyTensorDict())
         union = {kk for d in dicts for kk in d}
         out.check(set(res.keys()) == union and type(res) is Jacobians, "stack-keys-type", f"{len(res)} keys, {type(res).__name__}")
@@ -355,16 +373,16 @@ def _dict_case(case, out):
                 continue
             for i, d in enumerate(dicts):
                 want = d[kk] if kk in d else torch.zeros_like(kk)
-                out.check(torch.equal(got[i], want), "stack-row", f"row {i} of key of shape {tuple(kk.shape)}: {got[i].tolist()} vs {want.tolist()}")
+                out.check(_same(got[i], want), "stack-row", f"row {i} of key of shape {tuple(kk.shape)}: {got[i].tolist()} vs {want.tolist()}")
         out.nontrivial = len(dicts) >= 2 and any(not all(r) for r in present)
         return
     if kind == "select":
-        vals = _shuffled(rng, {kk: _vals(rng, s, case["real"], tdt) for kk, s in zip(keys, shapes)})
+        vals = _shuffled(rng, {kk: _vals(rng, s, case["real"], tdt, sp) for kk, s in zip(keys, shapes)})
         picked = [kk for kk, p in zip(keys, case["picked"]) if p]
         res = Select(picked, keys)(Gradients(vals))
         out.check(set(res.keys()) == set(picked) and type(res) is Gradients, "select-keys-type", f"{len(res)}")
         for kk in picked:
-            out.check(torch.equal(res[kk], vals[kk]), "select-value", "")
+            out.check(_same(res[kk], vals[kk]), "select-value", "")
         out.nontrivial = 0 < len(picked) < len(keys)
         return
     # aggregate
